@@ -88,6 +88,15 @@ def generate_rechunk_case(tp: Tape, tier: str):
     b_long = (a_long + 1 + tp.below(ndim - 1)) % ndim
     src_chunks = skinny(a_long) if tp.coin(3, 4) else G.gen_chunks(tp, shape)
     tgt_chunks = skinny(b_long) if tp.coin(3, 4) else G.gen_chunks(tp, shape)
+    def cap(cs):
+        # keep the number of stored chunks (and so the number of store operations per task) moderate
+        cs = list(cs)
+        while math.prod(-(-n // c) for n, c in zip(shape, cs)) > 400:
+            i = max(range(len(cs)), key=lambda d: -(-shape[d] // cs[d]))
+            cs[i] = min(shape[i], cs[i] * 2)
+        return cs
+
+    src_chunks, tgt_chunks = cap(src_chunks), cap(tgt_chunks)
     dtype = tp.choice(["float64", "int64", "int32", "int8"])
     itemsize = np.dtype(dtype).itemsize
     nbytes = math.prod(shape) * itemsize
